@@ -315,6 +315,86 @@ func c09HandlerReplaced(w *ndWriter, wait time.Duration) {
 	e.finish(w, "handler-replaced", true)
 }
 
+// a job that is still running when Close() is called panics afterwards: it is reported to the handler, and neither the pool's
+// goroutines nor the process die of it
+func c09CloseThenPanic(w *ndWriter, wait time.Duration) {
+	e := newC09(1, 1, 0, 4, 4)
+	acc := map[int]bool{}
+	j1 := mkJob(1, "holdpanic")
+	if e.schedule(j1, 0) == "ok" {
+		acc[1] = true
+	}
+	select {
+	case <-j1.entry:
+	case <-time.After(3 * time.Second):
+	}
+	e.pool.Close()
+	e.schedule(mkJob(2, "ok"), 0) // rejected: the pool is closed
+	close(j1.gate)
+	time.Sleep(10 * time.Millisecond) // a panic outside the worker's recover would have killed the process by now
+	e.rec.mu.Lock()
+	evs := e.rec.evs
+	e.rec.mu.Unlock()
+	for _, x := range evs {
+		delete(x, "seq")
+	}
+	w.write(E{"scenario": "close-then-panic", "max": e.max, "kind": "ok", "quiesced": false, "events": evs})
+}
+
+// PreAllocWorkerSize from several goroutines while the spawn loop is woken: never more than workerSizeMaximum workers (fresh pools
+// until one shows more, at most 300)
+func c09PreAllocRace(w *ndWriter, wait time.Duration) {
+	var last *c09Env
+	for it := 0; it < 300; it++ {
+		e := newC09(2, 2, 0, 8, 8)
+		var wg sync.WaitGroup
+		var start int32
+		for g := 0; g < 6; g++ {
+			wg.Add(1)
+			go func() {
+				defer wg.Done()
+				for atomic.LoadInt32(&start) == 0 {
+				}
+				e.pool.PreAllocWorkerSize(2)
+			}()
+		}
+		acc := map[int]bool{}
+		var held []*c09Job
+		atomic.StoreInt32(&start, 1)
+		for id := 1; id <= 6; id++ {
+			j := mkJob(id, "hold")
+			held = append(held, j)
+			if e.schedule(j, 0) == "ok" {
+				acc[id] = true
+			}
+		}
+		wg.Wait()
+		time.Sleep(2 * time.Millisecond) // every worker that exists has taken a job by now
+		e.mu.Lock()
+		running := 0
+		for _, n := range e.ran {
+			running += n
+		}
+		e.mu.Unlock()
+		for _, j := range held {
+			close(j.gate)
+		}
+		if last != nil {
+			last.pool.Close()
+		}
+		last = e
+		if running > 2 {
+			break
+		}
+	}
+	acc := map[int]bool{}
+	for id := 1; id <= 6; id++ {
+		acc[id] = true
+	}
+	last.quiesce(acc, wait)
+	last.finish(w, "prealloc-race", false)
+}
+
 // a burst of max panicking jobs, then a trickle
 func c09PanicBurst(w *ndWriter, wait time.Duration) {
 	e := newC09(3, 3, 0, 8, 8)
@@ -519,7 +599,9 @@ func c09Main(args []string) error {
 		c09PanicStrand(w, wait)
 		c09PanicStrandSlowExit(w, wait)
 		c09HandlerReplaced(w, wait)
-		runs++
+		c09CloseThenPanic(w, wait)
+		c09PreAllocRace(w, wait)
+		runs += 3
 		c09ExpiryBurst(w, wait)
 		runs += 2
 		c09PanicBurst(w, wait)
